@@ -243,7 +243,8 @@ def gis_cases(rng, quick):
                    [1., INF], [1e300, -1e300], [9.3e18, 1.], [3.9999, 2.0001]]
             C.append(("coord2cell", f"{g}.coord2cell({arr_inner(pts, lit)})"))
             C.append(("slice", f"{g}.slice({arr_inner(pts, lit)})"))
-            for shp in ("(0, 2)", "(3, 1)", "(3, 3)", "(2,)", "(0,)", "(2, 2, 2)", "(1, 0)"):
+            for shp in ("(0, 2)", "(3, 1)", "(3, 3)", "(2,)", "(0,)", "(2, 2, 2)", "(1, 0)", "(2, 3)", "(2, 5)", "(2, 40)",
+                        "(5, 2)", "(2, 2)", "(40, 2)", "(2, 1)", "(1, 2)"):   # coordinates given row-wise (2, n) as well
                 C.append(("coord2cell", f"{g}.coord2cell(np.zeros({shp}))"))
                 C.append(("slice", f"{g}.slice(np.zeros({shp}))"))
             cells = [0, 1, nr * nc - 1, nr * nc, -1, 2 ** 62, -2 ** 63]
